@@ -77,7 +77,7 @@ namespace
   void
   capture_stderr_start ()
   {
-    g_errfd = memfd_create ("zsim-stderr", 0);
+    g_errfd = g_child_errfd >= 0 ? g_child_errfd : memfd_create ("zsim-stderr", 0);
     if (g_errfd < 0)
       _exit (3);
     fflush (stderr);
